@@ -434,7 +434,12 @@ impl<IO> AsyncConnection<IO> {
                 buffered: self.0.recv_buf.len(),
                 buf_len: self.0.recv_buf.capacity(),
             });
-            let read = self.0.io.read_buf(&mut self.0.recv_buf).await?;
+            // This future may be dropped while waiting for data (e.g. as a branch of `select!`);
+            // the lines of the response received so far must not be lost with it
+            response_builder.suspend();
+            let read = self.0.io.read_buf(&mut self.0.recv_buf).await;
+            response_builder.resume();
+            let read = read?;
             trace!(read);
             #[cfg(feature = "verif-hooks")]
             crate::verif_hooks::emit(crate::verif_hooks::Probe::AfterRead {
